@@ -798,7 +798,17 @@ pub fn writable_history(rng: &mut impl Rng, specs: Vec<ArchiveSpec>) -> History 
     }
     let pick = |rng: &mut _, few: &[u16]| NameRef::Pool(few[Rng::random_range(rng, 0..few.len())]);
     let versions: &[u32] = &[1, 1, 2, 2, 3, 4];
-    let mut ops = vec![create2(0, versions[rng.random_range(0..6)], rng.random_range(0..4) != 0)];
+    // with and without a (listfile) / (attributes): an archive without a listfile takes different
+    // paths through rename/remove (nothing else republishes the tables)
+    let mut ops = vec![Op::CreateArchive2 {
+        target: 0,
+        version: versions[rng.random_range(0..6)],
+        listfile: rng.random_range(0..3) != 0,
+        attr_flags: [0u32, 0, 1, 4, 0xF][rng.random_range(0..5)],
+        sector_size: 3,
+        max_files: 16,
+        bad_cb: false,
+    }];
     let n = rng.random_range(8..60);
     for _ in 0..n {
         let op = match rng.random_range(0..100) {
